@@ -1,6 +1,7 @@
 package main
 
 import (
+	"sync"
 	"crypto/md5"
 	"encoding/base64"
 	"encoding/hex"
@@ -216,5 +217,57 @@ func scenarioC15(c *Ctx) {
 		}
 	}
 	runCases(c, cases)
+	// the same valid answer submitted by several API requests AT ONCE (a retried upload): exactly one
+	// of them may post, whatever the schedule (oracle only: real goroutines, no model case)
+	rounds := 12
+	if !c.Quick() {
+		rounds = 60
+	}
+	conc := 0
+	for _, pt := range points {
+		if len(pt.ops) == 0 || conc >= rounds {
+			continue
+		}
+		for rep := 0; rep < 3 && conc < rounds; rep++ {
+			conc++
+			o := pt.ops[len(pt.ops)-1]
+			ev := resultEventFor(string(o.Type))
+			e := NewNodeEnv(newEnvDir(c), me)
+			for _, it := range h[:pt.k] {
+				applyItem(e, it)
+			}
+			before, _ := e.Board.GetMessages(0)
+			const submitters = 4
+			var wg sync.WaitGroup
+			start := make(chan struct{})
+			okc := make(chan bool, submitters)
+			for g := 0; g < submitters; g++ {
+				wg.Add(1)
+				go func() {
+					defer wg.Done()
+					d := &dto.OperationDTO{ID: o.ID, Type: string(o.Type), Payload: append([]byte{}, o.Payload...), CreatedAt: o.CreatedAt, DkgID: o.DKGIdentifier,
+						Event: fsm.Event(ev), ResultMsgs: []storage.Message{{Event: ev, Data: []byte(fmt.Sprintf(`{"ParticipantId":0,"answer":"%s"}`, o.ID[:6])), DkgRoundID: o.DKGIdentifier}}}
+					<-start
+					okc <- e.applyResult(d) == "ok"
+				}()
+			}
+			close(start)
+			wg.Wait()
+			close(okc)
+			accepted := 0
+			for ok := range okc {
+				if ok {
+					accepted++
+				}
+			}
+			after, _ := e.Board.GetMessages(0)
+			e.Close()
+			if posted := len(after) - len(before); posted != 1 || accepted != 1 {
+				fail("answered-twice", fmt.Sprintf("%d simultaneous submissions of one valid answer: %d accepted, %d messages posted (exactly one of each expected)", submitters, accepted, posted),
+					map[string]interface{}{"position": pt.k, "operation_type": string(o.Type), "simultaneous_submissions": submitters})
+			}
+		}
+	}
+	c.Notes["concurrent_duplicate_rounds"] = conc
 	c.Notes["histories"] = len(cases)
 }
